@@ -1185,6 +1185,9 @@ class InertiaMoment(UnitBase):
         else:
             target_value = self.__value
 
+        if target_value <= 0:
+            raise ValueError("Parameter 'value' must be positive.")
+
         if inplace:
             self.__value = target_value
             self.__unit = target_unit
@@ -1851,6 +1854,12 @@ class TimeInterval(Time):
            >>> dt
            3600.0 sec
         """
+        if inplace is True:
+            TimeInterval(
+                value=super().to(target_unit=target_unit).value,
+                unit=target_unit
+            )
+
         converted = super().to(target_unit=target_unit, inplace=inplace)
 
         if inplace:
@@ -2057,6 +2066,9 @@ class Length(UnitBase):
         else:
             target_value = self.__value
 
+        if target_value <= 0:
+            raise ValueError("Parameter 'value' must be positive.")
+
         if inplace:
             self.__value = target_value
             self.__unit = target_unit
@@ -2255,6 +2267,9 @@ class Surface(UnitBase):
                 self.__UNITS[target_unit]
         else:
             target_value = self.__value
+
+        if target_value <= 0:
+            raise ValueError("Parameter 'value' must be positive.")
 
         if inplace:
             self.__value = target_value
